@@ -523,7 +523,7 @@ package raft
 //@   requires only_committed: index <= r.commitIndex
 //@   requires futures_by_index: forall i uint64 :: dom(futures, i) ==> futures[i] != nil && futures[i].log.Index == i
 //@   requires index_range: index < MaxInt63
-//@   modifies r.lastApplied, sent(r.fsmMutateCh), allof("H.logFuture."), allof("CH.sent.error"), allof("CH.last.error"), allof("CH.closed"), allof("CH.sent.interface"), allof("CH.last.interface")
+//@   modifies r.lastApplied, sent(r.fsmMutateCh), allof("H.logFuture."), allof("CH.sent.error"), allof("CH.last.error"), allof("CH.closed"), allof("CH.sent.interface"), allof("CH.last.interface"), received(r.shutdownCh)
 //@   ensures  applied: r.lastApplied == max(old(r.lastApplied), index)
 //@   ensures  old_index_sends_nothing: index <= old(r.lastApplied) ==> sent(r.fsmMutateCh) == old(sent(r.fsmMutateCh))
 //@   ensures  no_skip: forall i uint64 :: old(r.lastApplied) < i && i <= index && !dom(futures, i) ==> r.logs.has[i]
@@ -619,7 +619,7 @@ package raft
 
 //@ func overrideNotifyBool
 //@   requires nonnil: ch != nil
-//@   modifies sent(ch)
+//@   modifies sent(ch), received(ch)
 //@   ensures  holds_latest: lastsent(ch) == v
 //@   ensures  one_message: sent(ch) == old(sent(ch)) + 1
 
@@ -662,6 +662,31 @@ package raft
 //@   modifies nothing
 
 // ---------------------------------------------------------------------------
+// container/list (assumed contracts, trusted base): the in-flight queue. Only its length and the
+// membership of an element are modelled (ghost maps); order and contents are not.
+
+//@ ghostvar listLen map[*list.List]int
+//@ ghostvar listOf map[*list.Element]*list.List
+
+//@ extern (*container/list.List).Front(l)
+//@   modifies nothing
+//@   ensures  nil_iff_empty: (result == nil) == (listLen[l] == 0)
+//@   ensures  member: result != nil ==> listOf[result] == l
+//@   ensures  length_nonnegative: listLen[l] >= 0
+
+//@ extern (*container/list.List).Remove(l, e)
+//@   modifies listLen, listOf
+//@   ensures  removed: old(listOf[e]) == l ==> listLen[l] == old(listLen[l]) - 1 && listOf[e] == nil
+//@   ensures  foreign_element_ignored: old(listOf[e]) != l ==> listLen[l] == old(listLen[l]) && listOf[e] == old(listOf[e])
+//@   ensures  other_lists: forall m *list.List :: m != l ==> listLen[m] == old(listLen[m])
+//@   ensures  other_elements: forall f *list.Element :: f != e ==> listOf[f] == old(listOf[f])
+
+//@ extern (*container/list.Element).Next(e)
+//@   modifies nothing
+//@   ensures  detached_has_no_successor: listOf[e] == nil ==> result == nil
+//@   ensures  successor_in_same_list: result != nil ==> listOf[result] == listOf[e] && result != e
+
+// ---------------------------------------------------------------------------
 // C20: user restore
 
 //@ func (r *Raft) restoreUserSnapshot
@@ -677,6 +702,8 @@ package raft
 //@   ensures  durable_before_restore: sent(r.fsmMutateCh) != old(sent(r.fsmMutateCh)) ==> snapDurable[max(meta.Index, max(old(r.lastLogIndex), old(r.lastSnapshotIndex))) + 1]
 //@   ensures  error_leaves_cached_tail: result != nil ==> r.lastLogIndex == old(r.lastLogIndex) && r.lastApplied == old(r.lastApplied) && r.lastSnapshotIndex == old(r.lastSnapshotIndex)
 //@   ensures  term_untouched: r.currentTerm == old(r.currentTerm) && r.state == old(r.state)
+//@   ensures  every_inflight_request_cancelled: result == nil ==> listLen[r.leaderState.inflight] == 0
+//@   at call (*deferError).respond#1 assert aborted_by_restore: arg1 == ErrAbortedByRestore
 //@   at call (*deferError).Error#1 assert restore_request_has_shutdown_escape: fsm.ShutdownCh == r.shutdownCh && sent(r.fsmMutateCh) == old(sent(r.fsmMutateCh)) + 1
 //@   loop 1 invariant untouched: r.lastLogIndex == old(r.lastLogIndex) && r.lastLogTerm == old(r.lastLogTerm) && r.lastApplied == old(r.lastApplied) &&
 //@              r.lastSnapshotIndex == old(r.lastSnapshotIndex) && r.lastSnapshotTerm == old(r.lastSnapshotTerm) && r.currentTerm == old(r.currentTerm) && r.state == old(r.state) &&
@@ -786,7 +813,7 @@ package raft
 //@   requires nonnil: r != nil && r.logs != nil && r.logger != nil && typeis(r.conf.v, Config)
 //@   requires fresh_start: r.commitIndex == 0
 //@   requires index_range: r.logs.last < MaxInt63
-//@   modifies r.commitIndex, r.lastApplied, sent(r.fsmMutateCh), allof("H.logFuture."), allof("CH.sent.error"), allof("CH.last.error"), allof("CH.closed"), allof("CH.sent.interface"), allof("CH.last.interface")
+//@   modifies r.commitIndex, r.lastApplied, sent(r.fsmMutateCh), allof("H.logFuture."), allof("CH.sent.error"), allof("CH.last.error"), allof("CH.closed"), allof("CH.sent.interface"), allof("CH.last.interface"), received(r.shutdownCh)
 //@   ensures  disabled_is_noop: !r.RestoreCommittedLogs ==> result == nil && r.commitIndex == old(r.commitIndex) && r.lastApplied == old(r.lastApplied)
 //@   ensures  commit_is_min: result == nil && r.RestoreCommittedLogs ==> r.commitIndex == min(stagedCommit(r), r.logs.last)
 //@   ensures  applied_up_to_commit: result == nil && r.RestoreCommittedLogs ==> r.lastApplied == max(old(r.lastApplied), r.commitIndex)
@@ -971,7 +998,9 @@ package raft
 
 //@ func (r *Raft) leaderLoop
 //@   requires nonnil: r != nil
+//@   modifies allof("")
 //@   noinference
+//@   localonly
 //@   at call (*Raft).restoreUserSnapshot#1 assert refused_during_transfer: r.leaderState.leadershipTransferInProgress != 1
 //@   at call (*Raft).appendConfigurationEntry#1 assert gate: r.configurations.latestIndex == r.configurations.committedIndex &&
 //@              r.commitIndex >= r.leaderState.commitment.startIndex && r.leaderState.leadershipTransferInProgress != 1
@@ -1011,3 +1040,123 @@ package raft
 //@   ensures  queued_future_has_shutdown_escape: typeis(result, *leadershipTransferFuture) && sent(r.leadershipTransferCh) != old(sent(r.leadershipTransferCh)) ==> cast(result, *leadershipTransferFuture).ShutdownCh == r.shutdownCh
 //@   ensures  self_transfer_refused_without_queueing: id != nil && *id == r.localID ==> sent(r.leadershipTransferCh) == old(sent(r.leadershipTransferCh)) && typeis(result, *leadershipTransferFuture) && cast(result, *leadershipTransferFuture).responded
 //@   ensures  queued_means_sent: sent(r.leadershipTransferCh) != old(sent(r.leadershipTransferCh)) ==> typeis(result, *leadershipTransferFuture) && lastsent(r.leadershipTransferCh) == cast(result, *leadershipTransferFuture) && cast(result, *leadershipTransferFuture).errCh != nil
+
+// ---------------------------------------------------------------------------
+// Non-leader run loops (C17: every queue is answered in every state; C08: a non-leader answers
+// ErrNotLeader without dispatching; C01/C14: the candidate's tally and pre-vote gating).
+// The loops carry only the invariants written here (no inferred frame candidates).
+
+//@ spec func answered(d deferError) bool = d.responded || d.errCh == nil
+
+//@ func (r *Raft) runFollower
+//@   requires nonnil: r != nil && r.logger != nil && typeis(r.conf.v, Config)
+//@   noinference
+//@   localonly
+//@   loop 1 step apply_answered: received(r.applyCh) != old(received(r.applyCh)) ==> answered(lastreceived(r.applyCh).deferError)
+//@   loop 1 step verify_answered: received(r.verifyCh) != old(received(r.verifyCh)) ==> answered(lastreceived(r.verifyCh).deferError)
+//@   loop 1 step config_change_answered: received(r.configurationChangeCh) != old(received(r.configurationChangeCh)) ==> answered(lastreceived(r.configurationChangeCh).deferError)
+//@   loop 1 step restore_answered: received(r.userRestoreCh) != old(received(r.userRestoreCh)) ==> answered(lastreceived(r.userRestoreCh).deferError)
+//@   loop 1 step transfer_answered: received(r.leadershipTransferCh) != old(received(r.leadershipTransferCh)) ==> answered(lastreceived(r.leadershipTransferCh).deferError)
+//@   loop 1 step configurations_answered: received(r.configurationsCh) != old(received(r.configurationsCh)) ==> answered(lastreceived(r.configurationsCh).deferError)
+//@   loop 1 step bootstrap_answered: received(r.bootstrapCh) != old(received(r.bootstrapCh)) ==> answered(lastreceived(r.bootstrapCh).deferError)
+//@   loop 1 step one_request_per_iteration: received(r.applyCh) <= old(received(r.applyCh)) + 1 && received(r.verifyCh) <= old(received(r.verifyCh)) + 1
+//@   at call (*deferError).respond#1 assert not_leader_answer: arg1 == ErrNotLeader
+//@   at call (*deferError).respond#2 assert not_leader_answer: arg1 == ErrNotLeader
+//@   at call (*deferError).respond#3 assert not_leader_answer: arg1 == ErrNotLeader
+//@   at call (*deferError).respond#4 assert not_leader_answer: arg1 == ErrNotLeader
+//@   at call (*deferError).respond#5 assert not_leader_answer: arg1 == ErrNotLeader
+
+//@ func (r *Raft) runCandidate
+//@   requires nonnil: r != nil && r.logger != nil && typeis(r.conf.v, Config)
+//@   noinference
+//@   localonly
+//@   loop 1 step apply_answered: received(r.applyCh) != old(received(r.applyCh)) ==> answered(lastreceived(r.applyCh).deferError)
+//@   loop 1 step verify_answered: received(r.verifyCh) != old(received(r.verifyCh)) ==> answered(lastreceived(r.verifyCh).deferError)
+//@   loop 1 step config_change_answered: received(r.configurationChangeCh) != old(received(r.configurationChangeCh)) ==> answered(lastreceived(r.configurationChangeCh).deferError)
+//@   loop 1 step restore_answered: received(r.userRestoreCh) != old(received(r.userRestoreCh)) ==> answered(lastreceived(r.userRestoreCh).deferError)
+//@   loop 1 step transfer_answered: received(r.leadershipTransferCh) != old(received(r.leadershipTransferCh)) ==> answered(lastreceived(r.leadershipTransferCh).deferError)
+//@   loop 1 step configurations_answered: received(r.configurationsCh) != old(received(r.configurationsCh)) ==> answered(lastreceived(r.configurationsCh).deferError)
+//@   loop 1 step bootstrap_answered: received(r.bootstrapCh) != old(received(r.bootstrapCh)) ==> answered(lastreceived(r.bootstrapCh).deferError)
+//@   ensures  transfer_privilege_reset: r.candidateFromLeadershipTransfer.v == 0
+//@   loop 1 invariant tally_below_quorum: 0 <= grantedVotes && grantedVotes < votesNeeded && 0 <= preVoteGrantedVotes && preVoteGrantedVotes < votesNeeded
+//@   loop 1 step tally_monotone: prev(grantedVotes) <= grantedVotes && grantedVotes <= prev(grantedVotes) + 1
+//@   loop 1 step tally_counts_a_received_vote: grantedVotes == prev(grantedVotes) + 1 ==> received(prev(voteCh)) == old(received(prev(voteCh))) + 1
+//@   loop 1 step tally_counts_grants_only: grantedVotes == prev(grantedVotes) + 1 ==> lastreceived(prev(voteCh)).Granted
+//@   loop 1 step tally_counts_current_term_only: grantedVotes == prev(grantedVotes) + 1 ==> lastreceived(prev(voteCh)).Term <= r.currentTerm
+//@   at call (*deferError).respond#1 assert not_leader_answer: arg1 == ErrNotLeader
+//@   at call (*deferError).respond#2 assert not_leader_answer: arg1 == ErrNotLeader
+//@   at call (*deferError).respond#3 assert not_leader_answer: arg1 == ErrNotLeader
+//@   at call (*deferError).respond#4 assert not_leader_answer: arg1 == ErrNotLeader
+//@   at call (*deferError).respond#5 assert not_leader_answer: arg1 == ErrNotLeader
+//@   at call (*deferError).respond#7 assert cannot_bootstrap: arg1 == ErrCantBootstrap
+//@   at call (*Raft).electSelf#1 assert prevote_skipped_only_when_disabled_or_transfer: r.preVoteDisabled || r.candidateFromLeadershipTransfer.v != 0
+//@   at call (*Raft).electSelf#2 assert term_bumped_only_after_prevote_quorum: preVote.Granted && prev(preVoteGrantedVotes) + 1 >= votesNeeded
+//@   at call (*Raft).setState#3 assert leader_only_with_quorum_of_grants: grantedVotes >= votesNeeded
+
+// ---------------------------------------------------------------------------
+// C10: start-up restore from the snapshot store. tryRestoreSingleSnapshot opens the snapshot and feeds
+// it to the user's FSM (trusted: touches no raft state); restoreSnapshot must record as resume point
+// exactly the snapshot it restored.
+
+//@ func (r *Raft) tryRestoreSingleSnapshot
+//@   trusted opens one snapshot and restores the user FSM from it; reads configuration and logger, writes no raft state
+//@   requires nonnil: r != nil
+//@   modifies nothing
+
+//@ func (r *Raft) restoreSnapshot
+//@   requires nonnil: r != nil && r.snapshots != nil && r.logger != nil && r.trans != nil
+//@   ensures  term_and_log_untouched: r.currentTerm == old(r.currentTerm) && r.lastLogIndex == old(r.lastLogIndex) && r.lastLogTerm == old(r.lastLogTerm)
+//@   at call (*raftState).setLastSnapshot#1 assert records_the_restored_snapshot: success && arg1 == snapshot.Index && arg2 == snapshot.Term
+//@   at call (*raftState).setLastApplied#1 assert resumes_after_the_restored_snapshot: success && arg1 == snapshot.Index
+//@   at call (*Raft).setCommittedConfiguration#1 assert configuration_index_of_the_restored_snapshot: arg2 == ite(snapshot.Version > 0, snapshot.ConfigurationIndex, snapshot.Index)
+//@   at call (*Raft).setLatestConfiguration#1 assert same_configuration_committed_and_latest: arg2 == ite(snapshot.Version > 0, snapshot.ConfigurationIndex, snapshot.Index) && r.configurations.committedIndex == arg2
+
+// ---------------------------------------------------------------------------
+// runLeader (C18: one notification per gain and per loss, LeaderCh holds the newest transition;
+// C17/C08: step-down answers with ErrLeadershipLost). leaderLoop is used through its contract here:
+// it may change anything (modifies everything), so only what runLeader does before and after it counts.
+
+//@ func (r *Raft) runLeader
+//@   requires nonnil: r != nil && r.logger != nil && r.leaderCh != nil && typeis(r.conf.v, Config)
+//@   requires own_channel: cast(r.conf.v, Config).NotifyCh != r.leaderCh
+//@   noinference
+//@   localonly
+//@   ensures  loss_announced_last: lastsent(r.leaderCh) == false
+//@   at call (*Raft).setupLeaderState#1 assert gain_announced_first: lastsent(r.leaderCh) == true && sent(r.leaderCh) == old(sent(r.leaderCh)) + 1
+//@   at call (*Raft).setupLeaderState#1 assert at_most_one_gain_message: notify != nil ==> sent(notify) <= old(sent(notify)) + 1 && (sent(notify) == old(sent(notify)) + 1 ==> lastsent(notify) == true)
+
+// the deferred step-down cleanup of runLeader
+//@ func (r *Raft) runLeader$1
+//@   requires nonnil: r != nil && r.leaderCh != nil && r.leaderState.inflight != nil
+//@   requires own_channel: notify != r.leaderCh
+//@   localonly
+//@   ensures  loss_announced_last: lastsent(r.leaderCh) == false && sent(r.leaderCh) == old(sent(r.leaderCh)) + 1
+//@   ensures  at_most_one_loss_message: notify != nil ==> sent(notify) <= old(sent(notify)) + 1 && (sent(notify) == old(sent(notify)) + 1 ==> lastsent(notify) == false)
+//@   ensures  leader_state_cleared: r.leaderState.inflight == nil && r.leaderState.notify == nil && r.leaderState.commitment == nil && r.leaderState.replState == nil
+//@   ensures  own_leadership_no_longer_advertised: !(r.leaderAddr == r.localAddr && r.leaderID == r.localID) || (r.localAddr == "" && r.localID == "")
+//@   at call (*deferError).respond#1 assert inflight_answered_leadership_lost: arg1 == ErrLeadershipLost
+//@   at call (*deferError).respond#2 assert verify_answered_leadership_lost: arg1 == ErrLeadershipLost
+
+// ---------------------------------------------------------------------------
+// C08: the FSM goroutine's batch path (closure applyBatch of runFSM): every future is answered with
+// the response at the position of its own entry among the entries that were sent to the FSM.
+
+//@ spec func sendable(t LogType) bool = t == LogCommand || t == LogConfiguration
+
+//@ func (r *Raft) runFSM$2
+//@   requires wf: forall j int :: 0 <= j && j < len(reqs) ==> reqs[j] != nil && reqs[j].log != nil
+//@   localonly
+//@   loop 2 invariant sent_so_far: len(sendLogs) == count(j, #i, sendable(reqs[j].log.Type))
+//@   loop 3 invariant position: i == count(j, #i, sendable(reqs[j].log.Type))
+//@   at call (*deferError).respond#1 assert current_request: req == reqs[#i]
+//@   at call (*deferError).respond#1 assert position_of_current_request: prev(i) == count(j, #i, sendable(reqs[j].log.Type))
+//@   at call (*deferError).respond#1 assert response_at_position: sendable(req.log.Type) ==> req.future.response == responses[prev(i)]
+//@   at call (*deferError).respond#1 assert response_of_own_entry: sendable(req.log.Type) ==> req.future.response == responses[count(j, #i, sendable(reqs[j].log.Type))]
+//@   at call (*deferError).respond#1 assert no_response_for_unsent_entry: !sendable(req.log.Type) ==> req.future.response == nil
+//@   at call (*deferError).respond#1 assert answered_without_error: arg1 == nil
+
+// the single-entry path: applySingle's deferred answer
+//@ func (r *Raft) runFSM$1$1
+//@   requires wf: req != nil
+//@   localonly
+//@   at call (*deferError).respond#1 assert response_set_before_answer: req.future.response == resp && arg1 == nil
